@@ -110,7 +110,8 @@ class C09(Check):
 
         def delays(r):
             if r.random() < p_delay:
-                n = r.randint(2, 12)
+                n = r.randint(2, 12)      # (delays that round to fewer than two steps are deliberately neglected by the
+                #                            implementation and excluded by the property's quantifier)
                 return {'delay': (n + r.uniform(-0.45, 0.45)) * dt, 'dsteps': n}
             return {}
         spec = models.gen_net(rng, n_nodes=rng.randint(2, 5), libs=('lin', 'leak', 'integ', 'osc', 'linl'), max_edges=6,
